@@ -856,7 +856,7 @@ def run_case_c(c):
     scn['core']['pitch'] = round(c['oftf'] + 0.004, 9)
     spec = scn['power']['asm']['1']
     scn['assign'] = [['A', rg, p, {'flowrate': base_flow * (1.0 + 0.3 * i)}] for i, (rg, p) in enumerate(pos)]
-    scn['power']['asm'] = {str(S.asm_id(rg, p) + 1): dict(spec, q=QB * (1.0 + 0.5 * i), seed=i)
+    scn['power']['asm'] = {str(S.asm_id(rg, p) + 1): dict(spec, q=QB * (1.0 + 0.12 * i), seed=i)
                            for i, (rg, p) in enumerate(pos)}
     with S.Built(scn) as b:
         rx = b.reactor()
